@@ -51,7 +51,7 @@ type KindDesc struct {
 	AsInt     func(v Val) int64
 	AsUint    func(v Val) uint64
 	Add       func(a, b Val) Val
-	Values    []Val // value alphabet (extremes first)
+	Values    []Val // value alphabet (an ordinary value, zero / empty, then the extremes)
 	Deltas    []Val // merge deltas
 }
 
@@ -143,14 +143,14 @@ func init() {
 		k.Values, k.Deltas = vals, deltas
 		Kinds[k.Name] = k
 	}
-	add(kindInt(), nv(7, i64(-1), i64(math.MinInt64), math.MaxInt64, 0), nv(5, i64(-3)))
-	add(kindInt16(), nv(7, i64(-1), i64(math.MinInt16), math.MaxInt16, 0), nv(5, i64(math.MaxInt16)))
-	add(kindInt32(), nv(7, i64(-1), i64(math.MinInt32), math.MaxInt32, 0), nv(5, i64(math.MaxInt32)))
-	add(kindInt64(), nv(7, i64(-1), i64(math.MinInt64), math.MaxInt64, 0), nv(5, i64(-3)))
-	add(kindUint(), nv(7, math.MaxUint64, 1<<63, 0), nv(5, math.MaxUint64))
-	add(kindUint16(), nv(7, math.MaxUint16, 1<<15, 0), nv(5, math.MaxUint16))
-	add(kindUint32(), nv(7, math.MaxUint32, 1<<31, 0), nv(5, math.MaxUint32))
-	add(kindUint64(), nv(7, math.MaxUint64, 1<<63, 0), nv(5, math.MaxUint64))
+	add(kindInt(), nv(7, 0, i64(math.MinInt64), i64(-1), math.MaxInt64), nv(5, i64(-3)))
+	add(kindInt16(), nv(7, 0, i64(math.MinInt16), i64(-1), math.MaxInt16), nv(5, i64(math.MaxInt16)))
+	add(kindInt32(), nv(7, 0, i64(math.MinInt32), i64(-1), math.MaxInt32), nv(5, i64(math.MaxInt32)))
+	add(kindInt64(), nv(7, 0, i64(math.MinInt64), i64(-1), math.MaxInt64), nv(5, i64(-3)))
+	add(kindUint(), nv(7, 0, math.MaxUint64, 1<<63), nv(5, math.MaxUint64))
+	add(kindUint16(), nv(7, 0, math.MaxUint16, 1<<15), nv(5, math.MaxUint16))
+	add(kindUint32(), nv(7, 0, math.MaxUint32, 1<<31), nv(5, math.MaxUint32))
+	add(kindUint64(), nv(7, 0, math.MaxUint64, 1<<63), nv(5, math.MaxUint64))
 	f32 := func(f float32) uint64 { return uint64(math.Float32bits(f)) }
 	add(kindFloat32(), nv(f32(1.5), 0x7fc00001 /*NaN*/, f32(float32(math.Copysign(0, -1))), f32(float32(math.Inf(1))), 1 /*smallest subnormal*/, 0),
 		nv(f32(0.25), f32(float32(math.Inf(-1)))))
